@@ -23,6 +23,10 @@ pub trait Property {
     const LEVEL: &'static str;
     /// How cases are generated and what counts as distinct / non-trivial.
     const RULE: &'static str;
+    /// If non-zero: that many runs (x10 in the thorough tier) are re-executed in
+    /// two further groups of fresh processes (8 and 5 workers) and their history
+    /// digests compared; a difference is a violation of this property.
+    const CROSS_PROCESS_RUNS: u64 = 0;
     fn runs(tier: Tier) -> u64;
     fn generate(rng: &mut Rng, tier: Tier) -> Self::Plan;
     /// Execute a plan against the real code; `None` = property held.
@@ -369,6 +373,50 @@ pub fn run_check<P: Property>(o: &RunOpts) -> i32 {
     }
     let wall_explore = t0.elapsed().as_secs_f64();
 
+    // ---- cross-process determinism sample ------------------------------------
+    let mut cross_checked = 0u64;
+    if P::CROSS_PROCESS_RUNS > 0 {
+        let n = (P::CROSS_PROCESS_RUNS * if o.tier == Tier::Thorough { 10 } else { 1 }).min(total);
+        let mut groups: Vec<Vec<(i64, u64, u64)>> = Vec::new();
+        for (gi, gw) in [8u64, 5u64].iter().enumerate() {
+            let mut cs: Vec<Child> = (0..*gw).map(|k| spawn_worker(P::ID, o.tier, o.seed, k, *gw, n, &dir.join(format!("x{gi}_{k}.json")), true, t0)).collect();
+            let mut dg = Vec::new();
+            for c in cs.iter_mut() {
+                let ok = c.proc.wait().map(|s| s.success()).unwrap_or(false);
+                match std::fs::read(&c.out).ok().and_then(|b| serde_json::from_slice::<WorkerOut>(&b).ok()) {
+                    Some(wo) if ok => dg.extend(wo.digests),
+                    _ => harness_errors.push("cross-process worker failed".into()),
+                }
+                let _ = std::fs::remove_file(&c.out);
+            }
+            dg.retain(|d| d.0 >= 0);
+            dg.sort();
+            groups.push(dg);
+        }
+        if groups.len() == 2 && groups[0].len() == groups[1].len() {
+            for (a, b) in groups[0].iter().zip(groups[1].iter()) {
+                cross_checked += 1;
+                if a.0 != b.0 || a.1 != b.1 {
+                    harness_errors.push(format!("plan digest of run {} differs between processes: the generator is not a function of the seed", a.0));
+                    break;
+                }
+                if a.2 != b.2 {
+                    let mut rng = Rng::new(run_seed(o.seed, P::ID, a.0 as u64));
+                    found.push(FoundViolation {
+                        run: a.0,
+                        class: format!("{}: the same plan gives different histories in different processes", P::ID),
+                        detail: format!("run {}: history digest {:016x} in one process, {:016x} in another", a.0, a.2, b.2),
+                        plan: serde_json::to_value(P::generate(&mut rng, o.tier)).unwrap(),
+                    });
+                    break;
+                }
+            }
+        } else {
+            harness_errors.push("cross-process digest lists have different lengths".into());
+        }
+        merged.add("cross_process_runs_compared", cross_checked);
+    }
+
     // ---- report -------------------------------------------------------------
     let known = load_known();
     let mut by_class: BTreeMap<String, Vec<&FoundViolation>> = BTreeMap::new();
@@ -381,6 +429,7 @@ pub fn run_check<P: Property>(o: &RunOpts) -> i32 {
     let mut n_viol = 0;
     let mut known_hit = Vec::new();
     let mut lines = Vec::new();
+    let mut minimised = 0;
     for (class, fs) in &by_class {
         if class == "HARNESS-PANIC" {
             harness_errors.push(format!("harness panic in run {}: {}", fs[0].run, fs[0].detail));
@@ -393,7 +442,8 @@ pub fn run_check<P: Property>(o: &RunOpts) -> i32 {
             continue;
         }
         // minimise in a child process (a plan may kill the process)
-        let (min_plan, min_execs) = minimise_in_child(P::ID, &first.plan, class, &dir);
+        minimised += 1;
+        let (min_plan, min_execs) = if minimised <= 6 && !class.contains("different processes") { minimise_in_child(P::ID, &first.plan, class, &dir) } else { (first.plan.clone(), 0) };
         let name = format!("{}-s{}-r{}-{:08x}.json", P::ID, o.seed, first.run, fnv1a(class.as_bytes()) as u32);
         let path = replay_dir.join(name);
         let file = json!({
